@@ -360,7 +360,7 @@ class Interp:
             return False
         if v is True:
             return True
-        if isinstance(v, (str, int, float, tuple, list, dict)):
+        if isinstance(v, (str, int, float, tuple, list, dict, set)):
             return bool(v)
         if isinstance(v, (Obj, Record, Sized)):
             return True
@@ -415,6 +415,12 @@ class Interp:
                 if isinstance(b, dict) or all(isinstance(x, (str, int, type(None))) for x in b):
                     r = a in b
                     return r if isinstance(op, ast.In) else (not r)
+            if isinstance(b, set) and isinstance(a, (str, int)):
+                r = a in b
+                return r if isinstance(op, ast.In) else (not r)
+            if isinstance(b, Obj) and "__contains__" in b.attrs and isinstance(a, (str, int)):
+                r = a in b.attrs["__contains__"]
+                return r if isinstance(op, ast.In) else (not r)
             if isinstance(b, dict) and isinstance(a, tuple) and all(isinstance(x, (str, int, type(None))) for x in a):
                 r = a in b
                 return r if isinstance(op, ast.In) else (not r)
@@ -509,6 +515,11 @@ class Interp:
                 key = 0
             if base is TOP or key is TOP:
                 return TOP
+            if isinstance(base, Obj) and "__getitem__" in base.attrs and isinstance(key, (str, int)):
+                m = base.attrs["__getitem__"]
+                if key in m:
+                    return m[key]
+                raise _Raise("KeyError")
             if isinstance(base, (tuple, list)) and isinstance(e.slice, ast.Slice):
                 lo = None if e.slice.lower is None else self.eval(e.slice.lower, env, f)
                 hi = None if e.slice.upper is None else self.eval(e.slice.upper, env, f)
@@ -656,6 +667,12 @@ class Interp:
                         d[kv[0]] = kv[1]
                 d.update(kwargs)
                 return d
+            if n == "set":
+                if not args:
+                    return set()
+                if isinstance(args[0], (list, tuple, set)) and all(isinstance(x, (str, int)) for x in args[0]):
+                    return set(args[0])
+                return TOP
             if n in ("tuple", "list"):
                 if not args:
                     return () if n == "tuple" else []
@@ -714,6 +731,9 @@ class Interp:
                     return self.invoke(tgt, args, kwargs, env.get(selfname))
                 return None  # not inlined: treated as a passing no-op
             base = self.eval(recv, env, f)
+            if isinstance(base, set) and m in ("add", "discard") and args and isinstance(args[0], (str, int)):
+                getattr(base, m)(args[0])
+                return None
             if isinstance(base, list) and m == "append" and args:
                 base.append(args[0])
                 return None
